@@ -306,6 +306,24 @@ def register(ex):
     X['pthread_mutex_init'] = lambda st, a, nm: 0; X['pthread_mutex_destroy'] = lambda st, a, nm: 0
     X['__pthread_key_create'] = lambda st, a, nm: 0
 
+    # ---- libstdc++ unordered containers (hashtable_c++0x.cc / hash_bytes.cc): bucket placement is unobservable through
+    # the container interface, so any deterministic hash and any growth policy keeping buckets >= elements is a model
+    def x_hash_bytes(st, a, nm):
+        n = conc_len(ex, st, a[1], '_Hash_bytes'); h = 0xcbf29ce484222325
+        for c in (load_bytes(ex, st, a[0], n, '_Hash_bytes-read') if n else []):
+            if c is None: ex.ub(st, '_Hash_bytes reads uninitialised bytes')
+            if is_sym(c) or isinstance(c, tuple): raise Inconclusive('_Hash_bytes over symbolic bytes')
+            h = ((h ^ c) * 0x100000001b3) & ((1 << 64) - 1)
+        return h
+    X['_ZSt11_Hash_bytesPKvmm'] = x_hash_bytes
+
+    def x_need_rehash(st, a, nm):
+        nb, ne, ni = (conc_len(ex, st, v, '_M_need_rehash') for v in a[1:4])
+        if ne + ni > nb: return [1, max(2 * nb + 1, ne + ni, 13)]
+        return [0, 0]
+    X['_ZNKSt8__detail20_Prime_rehash_policy14_M_need_rehashEmmm'] = x_need_rehash
+    X['_ZNKSt8__detail20_Prime_rehash_policy11_M_next_bktEm'] = lambda st, a, nm: max(conc_len(ex, st, a[1], '_M_next_bkt'), 13)
+
     # ---- libstdc++ std::list node splice primitives (list.cc), documented behaviour
     def ld(st, p, off): return ex.load(st, P8, ex.padd(p, off))
     def sto(st, p, off, v): ex.store(st, P8, v, ex.padd(p, off))
